@@ -137,7 +137,7 @@ EXPORT char *_stpncpy_s_chk(char *restrict dest, rsize_t dmax,
         }
         BND_CHK_PTR_BOUNDS(dest, dmax);
     } else {
-        if (unlikely(dmax > destbos)) {
+        if (unlikely(dmax > destbos || dmax > RSIZE_MAX_STR)) {
             if (dmax > RSIZE_MAX_STR) {
                 handle_error(dest, destbos, "stpncpy_s: dmax exceeds max",
                              ESLEMAX);
